@@ -8,6 +8,10 @@ import time
 from . import core
 
 FUEL = 150
+MAX_TIMEOUTS_PER_GRAMMAR = 4
+RECHECK_BUDGET = 100.0      # seconds per check run spent on repeating timed-out observations
+_recheck_spent = [0.0]
+DROPPED = {'timeouts_not_rechecked': 0, 'grammars_cut_short': 0}
 
 
 def _worker(batch, slow=False):
@@ -48,7 +52,13 @@ def _worker(batch, slow=False):
             entries = [i for i, n in enumerate(ex['rule_names']) if not n.startswith('_')
                        and not ex['rules'][i][0]]
         bytes_mode = opts.get('bytes', False)
+        # a grammar that keeps running out of time (a loop in the generated parser, or a legitimately divergent
+        # grammar) is not run on all its inputs: each such observation costs seconds
+        nto = 0
         for text in texts:
+            if nto >= MAX_TIMEOUTS_PER_GRAMMAR:
+                rec['cut_short'] = True
+                break
             t = text.encode('latin-1') if bytes_mode else text
             rxt = impl.rx_table(ex, t)
             for entry in entries:
@@ -59,6 +69,8 @@ def _worker(batch, slow=False):
                         x = impl.observe_raw(g, ex, entry, t, pos)
                         p = impl.observe_parse(g, ex, entry, t, pos, full,
                                                module_level=opts.get('module_level', False))
+                        if x == 'timeout' or p == 'timeout':
+                            nto += 1
                         rec['cases'].append((text, rxt, entry, pos, full, x, p))
         out.append(rec)
     return out
@@ -75,14 +87,25 @@ def _recheck_timeouts(recs, jobs):
     """a 'timeout' observed by a worker may be machine load: repeat those observations here, generously"""
     from . import impl
     byid = {j[0]: j for j in jobs}
+    t_in = time.time()
+    deadline = t_in + max(0.0, RECHECK_BUDGET - _recheck_spent[0])
     for k, r in enumerate(recs):
-        if r.get('grammar_error') == 'timeout':
+        if r.get('cut_short'):
+            DROPPED['grammars_cut_short'] += 1
+        if r.get('grammar_error') == 'timeout' and time.time() < deadline:
             fresh = _worker([byid[r['gid']]], slow=True)[0]
             recs[k] = fresh
             r = fresh
         if 'ex' not in r:
             continue
         if any(c[5] == 'timeout' or c[6] == 'timeout' for c in r['cases']):
+            if time.time() >= deadline:
+                # out of budget: these observations are not confirmed, so they are not compared at all (the ones
+                # repeated before the budget ran out are)
+                keep = [c for c in r['cases'] if c[5] != 'timeout' and c[6] != 'timeout']
+                DROPPED['timeouts_not_rechecked'] += len(r['cases']) - len(keep)
+                r['cases'] = keep
+                continue
             opts = byid[r['gid']][3]
             try:
                 g, ex = impl.build(r['desc'], slow=True)
@@ -97,6 +120,7 @@ def _recheck_timeouts(recs, jobs):
                     p = impl.observe_parse(g, ex, entry, t, pos, full, timeout=1.5, retry=False,
                                            module_level=opts.get('module_level', False))
                 r['cases'][i] = (text, rxt, entry, pos, full, x, p)
+    _recheck_spent[0] += time.time() - t_in
     return recs
 
 
